@@ -1076,6 +1076,10 @@ impl<'a> World<'a> {
             let k = self.dec.choose(&format!("no-origins-input{}", ep), n as u64) as usize;
             psbt.inputs[k].bip32_derivation.clear();
             psbt.inputs[k].tap_key_origins.clear();
+            // (the internal key is a hint for signers; the finalizer can do without)
+            if self.dec.choose(&format!("no-internal-key{}", ep), 2) == 1 {
+                psbt.inputs[k].tap_internal_key = None;
+            }
             self.stats.probe("input_without_key_origins");
         }
         if psbt.unsigned_tx.output.len() == 2 {
@@ -1149,6 +1153,15 @@ impl<'a> World<'a> {
                 inp.tap_key_origins.clear();
             }
             self.stats.probe("key_origins_stripped");
+        }
+        // a finalizer that is handed the signed PSBT without the internal-key hint (a field for signers)
+        if !self.mon.corruption && self.dec.choose(&format!("drop-internal-key:{}", self.stats.attempts), 8) == 1 {
+            for inp in psbt.inputs.iter_mut() {
+                if inp.final_script_witness.is_none() {
+                    inp.tap_internal_key = None;
+                }
+            }
+            self.stats.probe("internal_key_hint_dropped");
         }
         let v = self.dec.choose(&format!("cfin:{}", self.stats.attempts), 6);
         let all_final = monitors::finalize_with_monitors(self, "coord", &mut psbt, v);
